@@ -436,6 +436,7 @@ fn run_thread(
         let mut l = log.lock().unwrap();
         l.events += 1;
         let ev = l.events;
+        l.out.note(format!("#{ev} thread {me} op {opi} {op:?} -> {:?}", result.first()));
         l.digest.u64(ev);
         l.digest.u64(me as u64);
         l.digest.u64(opi as u64);
